@@ -1629,6 +1629,10 @@ MANIFEST = {
             "contract-respecting sequence over the full alphabet, as_coded_top_min_pops_sorted restates the two order clauses for it, "
             "callbacks_fire_as_specified characterises the log, and refines_multiset proves every history a run of the abstract "
             "handle->key map of the property text (size = number of live elements; pop removes some minimum). "
+            "Optional callbacks are exercised in both configurations (BinaryHeap onAfterInsert/onBeforeRemove registered or not: ev=0; "
+            "GridB onCellUpdate registered or not: cb=0, where the user writes the key and several in-place writes are followed by "
+            "updateAll() or per-cell update()); gridb_updateAll_rebuilds_current_keys proves over C13's GridB model that after "
+            "updateAll() both heaps are heaps of the current keys for any event or none. "
             "Engine 2 (heapusers) covers the property's anchors in the heap's USERS - GridB's internal_/external_ heaps (directly and "
             "through KPIECE's Discretization), EIT*'s ReverseQueue/ForwardQueue standalone, and the BIT*/ABIT*/AIT*/EIT*/EIRM* queues "
             "inside planner runs: each user is driven through its public API and the underlying heap array is dumped after every "
